@@ -13,6 +13,24 @@ class BlockExit(Exception):
     pass
 
 
+def global_state():
+    """Interpreter-wide state that belongs to the program: read after the (traced or untraced) block."""
+    import decimal
+    import gc
+    import signal
+    import threading
+    import warnings
+
+    return {
+        "recursionlimit": sys.getrecursionlimit(), "settrace": repr(sys.gettrace()), "gc_enabled": gc.isenabled(), "gc_threshold": list(gc.get_threshold()),
+        "warnings_filters": [repr(f[:3]) for f in warnings.filters], "switchinterval": sys.getswitchinterval(), "cwd": os.getcwd(),
+        "environ": sorted(k for k in os.environ if not k.startswith(("VF_", "PYTHON", "MT_"))), "sigint": repr(signal.getsignal(signal.SIGINT)),
+        "threads": threading.active_count(), "decimal_prec": decimal.getcontext().prec, "excepthook": sys.excepthook is sys.__excepthook__,
+        "stdout_is_original": sys.stdout is sys.__stdout__, "displayhook": sys.displayhook is sys.__displayhook__,
+        "threading_profile": repr(getattr(threading, "_profile_hook", None)), "path_len": len(sys.path),
+    }
+
+
 def main():
     spec = json.load(open(sys.argv[1]))
     path = spec["program"]
@@ -119,6 +137,7 @@ def main():
         except BaseException as e:  # noqa
             escaped = f"{type(e).__name__}: {e}"
     report["escaped"] = escaped
+    report["global_state"] = global_state()
     report["fired"] = fired
     report["stdout"] = out.getvalue()
     report["journal"] = tripwire.JOURNAL
